@@ -262,6 +262,24 @@ func streamA() {
 	rec(nil)
 	caseA(caseT{Stream: "a", Body: b64("a\nb"), Pos: []int{0, 1, 2, 3, 7}, NilSrc: true})
 	pairs += 5
+	// sampled: texts with code points that other standards (and regexp classes) treat as line ends — U+2028, U+2029,
+	// NEL, VT, FF — and with partial UTF-8 sequences; only LF, CR and CRLF end a line of a GraphQL document
+	pieces := []string{"a", "\n", "\r", "\r\n", "\u2028", "\u2029", "\u0085", "\v", "\f", "é", "\xe2\x80", "\xa8", "#", " "}
+	for i, n := 0, run.N(400, 20000); i < n && !run.TooManyViolations(); i++ {
+		r := hx.Fork(run.Seed, 7000000+i)
+		var sb strings.Builder
+		for k, m := 0, r.Range(1, 8); k < m; k++ {
+			sb.WriteString(pieces[r.Intn(len(pieces))])
+		}
+		body := sb.String()
+		pos := make([]int, 0, len(body)+3)
+		for p := 0; p <= len(body)+2; p++ {
+			pos = append(pos, p)
+		}
+		caseA(caseT{Stream: "a", Body: b64(body), Pos: pos})
+		pairs += len(pos)
+		run.Tag("a:unicode-line-separator-sample")
+	}
 	run.Res.Extra["a_exhaustive_alphabet"] = "a, LF, CR"
 	run.Res.Extra["a_exhaustive_max_len"] = maxLen
 	run.Res.Extra["a_exhaustive_pairs"] = pairs
